@@ -17,6 +17,9 @@ func genFault(r *Rng, approxLen int) string {
 		return fmt.Sprintf("s%d", r.Intn(approxLen+1))
 	case 3:
 		return fmt.Sprintf("f%d", []int{1, 2047, 2048, 2049, 4096}[r.Intn(5)])
+	case 5:
+		// a slow connection: the write takes 40 ms of the 50 ms timeout
+		return "D40"
 	case 4:
 		// every Write on this connection takes at most k bytes and reports no error
 		return fmt.Sprintf("S%d", []int{0, 1, 7, 64, 1000}[r.Intn(5)])
